@@ -422,8 +422,9 @@ def verify_history(plan, resp, baselines, check_seq=True):
             if check_seq and not fired:
                 b = baselines.open(path, raw)
                 if b.ok:
+                    # whether it opens, not what the message says (see pull_sig)
                     got = (ev.outcome, ev.get("msg", "-"))
-                    if got != b.parse:
+                    if got[0] != b.parse[0]:
                         return bad("open-stable", ev, "fresh: %s ; here: %s"
                                    % (show_sig(b.parse), show_sig(got))), st
 
